@@ -64,16 +64,36 @@ def close(code, exact, tol=TOL):
     return abs(float(code) - e) <= tol * max(1.0, abs(e))
 
 
+class GridContract(AbstractContract):
+    """ONE user-defined contract class whose instances carry their own specification (multiplier, cash requirement,
+    margin requirement): the properties quantify over user-defined contracts, and nothing says one class per spec."""
+
+    def __init__(self, symbol, multiplier, cash_requirement, margin_requirement):
+        self._symbol = symbol
+        self._multiplier = float(multiplier)
+        self._cash_requirement = float(cash_requirement)
+        self._margin_requirement = float(margin_requirement)
+
+    @property
+    def symbol(self):
+        return self._symbol
+
+    @property
+    def multiplier(self):
+        return self._multiplier
+
+    @property
+    def cash_requirement(self):
+        return self._cash_requirement
+
+    @property
+    def margin_requirement(self):
+        return self._margin_requirement
+
+
 def make_contract_class(name, multiplier, cash_requirement, margin_requirement):
-    """A user-defined contract: the properties quantify over those."""
-    ns = {
-        "__init__": lambda self, symbol: setattr(self, "_symbol", symbol),
-        "symbol": property(lambda self: self._symbol),
-        "multiplier": float(multiplier),
-        "cash_requirement": float(cash_requirement),
-        "margin_requirement": float(margin_requirement),
-    }
-    return type(name, (AbstractContract,), ns)
+    """kept for callers that want a class: a factory producing GridContract instances"""
+    return lambda symbol: GridContract(symbol, multiplier, cash_requirement, margin_requirement)
 
 
 def make_contracts(spec):
@@ -83,8 +103,7 @@ def make_contracts(spec):
         if s.get("builtin") == "ETF":
             out[name] = ETF(name)
         else:
-            cls = make_contract_class("Grid_" + name, s["mult"], s["cashreq"], float(s["mr"]))
-            out[name] = cls(name)
+            out[name] = GridContract(name, s["mult"], s["cashreq"], float(s["mr"]))
     return out
 
 
